@@ -76,7 +76,7 @@ def _chunk_worker(chk, prop, verif_seed, batch, start, count, wfd, prop_filter):
     bname = batch['name']
     for i in range(start, start + count):
         seed = derive_seed(verif_seed, prop, bname, i)
-        case = chk.make_case(batch, seed)
+        case = chk.make_case(dict(batch, index=i), seed)
         case['index'] = i
         case['batch'] = bname
         r = chk.run_case(case)
